@@ -27,12 +27,49 @@ ApplyNested(r, qq, sb, op, cap) ==
   IN [reg |-> c.reg, q |-> c.q, stb |-> c.stb, out |-> NoOut,
       srq |-> IF 6 \in c.stb /\ 6 \notin sb THEN <<c.stb>> ELSE <<>>]   \* required; a passing rise in between may be announced too
 
-ApplyAny(r, qq, sb, op, cap) == IF op[1] \in NestedKinds THEN ApplyNested(r, qq, sb, op, cap) ELSE Apply(r, qq, sb, op, cap)
 
 DoN(op) == LET a == ApplyNested(reg, q, stb, op, Cap) IN
            /\ reg' = a.reg /\ q' = a.q /\ stb' = a.stb /\ srq' = a.srq /\ out' = a.out /\ lastOp' = op
 NextN == Next \/ \E op \in NestedOps : DoN(op)
 SpecN == Init /\ [][NextN]_vars
+
+-----------------------------------------------------------------------------
+(* The service-request handler (the control callback) may re-enter the library too.  Two handlers are modelled; each acts    *)
+(* once, at the announcement of a rise of MSS:                                                                              *)
+(*   srqclr - it services the request by clearing the event registers whose summary bits it was shown;                      *)
+(*   srqpp  - it takes the oldest error out of the queue and reports a device error (-300) of its own, which may raise      *)
+(*            MSS again - and that rise has to be announced like any other.                                                 *)
+(* <<kind>> \o op is the operation op under such a handler: op, then (if MSS rose) what the handler does, in sequence.       *)
+(* srq lists the announcements that are required; others may be made while MSS is 1.  The binding leaves out one case in    *)
+(* which the order of two writes inside one library call is visible: srqclr around a push onto a full queue (the overflow   *)
+(* bit is recorded after the handler has run).                                                                              *)
+CONSTANT SrqOps
+SrqKinds == {"srqclr", "srqpp"}
+InnerOf(op) == SubSeq(op, 2, Len(op))
+NamedEvents(s) == (IF 5 \in s THEN {"ESR"} ELSE {}) \cup (IF 7 \in s THEN {"OPER"} ELSE {}) \cup (IF 3 \in s THEN {"QUES"} ELSE {})
+ClearNamed(r, s) == [n \in DOMAIN r |-> IF n \in NamedEvents(s) THEN {} ELSE r[n]]
+ApplySrq(r, qq, sb, op, cap) ==
+  LET a == Apply(r, qq, sb, InnerOf(op), cap) IN
+  IF a.srq = <<>> THEN a
+  ELSE IF op[1] = "srqclr"
+       THEN LET r2 == ClearNamed(a.reg, a.stb) IN
+            [reg |-> r2, q |-> a.q, stb |-> NewStb(r2, Len(a.q)), out |-> a.out, srq |-> a.srq]
+       ELSE LET b == Apply(a.reg, a.q, a.stb, <<"pop">>, cap)
+                c == Apply(b.reg, b.q, b.stb, <<"push", 0 - 300>>, cap)
+            IN [reg |-> c.reg, q |-> c.q, stb |-> c.stb, out |-> a.out, srq |-> a.srq \o c.srq]
+
+ApplyAny(r, qq, sb, op, cap) == IF op[1] \in NestedKinds THEN ApplyNested(r, qq, sb, op, cap)
+                                ELSE IF op[1] \in {"srqclr", "srqpp"} THEN ApplySrq(r, qq, sb, op, cap)
+                                ELSE Apply(r, qq, sb, op, cap)
+
+DoS(op) == LET a == ApplySrq(reg, q, stb, op, Cap) IN
+           /\ reg' = a.reg /\ q' = a.q /\ stb' = a.stb /\ srq' = a.srq /\ out' = a.out /\ lastOp' = op
+NextS == NextN \/ \E op \in SrqOps : DoS(op)
+SpecS == Init /\ [][NextS]_vars
+(* every rise of MSS over a step is announced at least once (what the last announcement shows is the handler's business) *)
+RiseAnnouncedS == [][(6 \notin stb /\ 6 \in stb') => srq' # <<>>]_vars
+(* under srqpp a second rise inside the step needs a second announcement *)
+SecondRiseS == [][lastOp'[1] = "srqpp" /\ Len(srq') = 2 => 6 \in stb']_vars
 
 (* the class bit of an error is recorded even when the error itself is taken out at once *)
 NestedSetsClassBit ==
